@@ -5,7 +5,8 @@ import Bip39V.Props.C02
 import Bip39V.Props.C14
 /-! # C10 — validation is invariant under Unicode-equivalent spellings
 
-`N : Normaliser` is `norm.NFKD.String` with its two recorded assumptions (`Props/Norm.lean`).
+`N : Normaliser` is `norm.NFKD.String` with the two facts the proofs use (`Props/Norm.lean`); both are
+proved for the executable model of x/text's algorithm (`Props/XText.lean`: `c10_verdict_xtext`, …).
 NFC, NFD, NFKC, NFKD and full-width spellings of a string, and U+3000 for U+0020, all have the
 same NFKD form; that the concrete re-spellings x/text produces have equal NFKD forms is checked
 by the harness for all 20 480 list words. -/
@@ -34,7 +35,7 @@ theorem classify_long_token (D : Bytes → Bytes) (L : Lang) (toks : List Str) (
   have := wordOk_length (words_wordOk L t (hin t ht))
   omega
 
-/-- outside the stream-safe class nothing is accepted: 30 consecutive K-items lie inside one token
+/-- outside the stream-safe class nothing is accepted: 28 consecutive K-items lie inside one token
 (U+0020 is not a K-item) and no list word is that long -/
 theorem reject_not_streamSafe (N : Normaliser) (D : Bytes → Bytes) (hD : ∀ x, (D x).length = 32) (s : Str) (ℓ : Int)
     (hs : streamSafe s = false) : checkMnemonic N.X D s ℓ ≠ .ok () := by
